@@ -508,4 +508,58 @@ theorem unknown_command_line (cfg : Cfg) (s0 : S) (l rest : Bytes) (hi : s0.inp 
       · cases hp
       · cases hp
 
+/-! ### against the RFC-side framing -/
+
+theorem atomChar_agree : ∀ c, c < 127 → 32 ≤ c → isAtomChar c = FramingSpec.isAtomChar c := by decide
+
+theorem takeWhile_congr (p q : Nat → Bool) : ∀ (l : Bytes), (∀ b ∈ l, p b = q b) →
+    List.takeWhile p l = List.takeWhile q l := by
+  intro l
+  induction l with
+  | nil => intro _; rfl
+  | cons a t ih =>
+    intro h
+    simp only [List.takeWhile_cons, h a (by simp)]
+    split
+    · rw [ih (fun b hb => h b (by simp [hb]))]
+    · rfl
+
+/-- The server and the RFC framing on a command the server does not know: same tag, the octets the
+    server consumed as command text are command text for `frame` too, and unless the line ends in a
+    non-synchronising literal header both end the command at the same octet. -/
+theorem unknown_command_frame (cfg : Cfg) (hfix : cfg.fx.append = true) (s0 : S) (l rest : Bytes)
+    (hi : s0.inp = l ++ 13 :: 10 :: rest) (hp : ∀ b ∈ l, 32 ≤ b ∧ b ≤ 126)
+    (tag name : Bytes) (s2 : S) (hh : cmdHeader s0.reset = (some (tag, name), s2))
+    (hu : handlerOf cfg name = .unknown)
+    (go : Nat → Bool) (hgo : go (s0.pos + l.length + 2) = false) (fuel : Nat) (f0 : FramingSpec.Frame) :
+    let R := FramingSpec.frameLines go (fuel + 1) true s0.pos s0.inp f0
+    ∃ s1 new, readCommand cfg s0 = (true, s1) ∧
+      s1.evs = new ++ s0.evs ∧ new.filter isTagged = [Event.tagged tag .bad] ∧ (∀ p, Event.cont p ∉ new) ∧
+      R.1.tag = some tag ∧
+      s1.roles = List.replicate (l.length + 2) Role.text ++ s0.roles ∧
+      (f0.roles ++ List.replicate (l.length + 2) FramingSpec.Role.text <+: R.1.roles) ∧
+      ((FramingSpec.litHeader l = none ∨ ∃ n, FramingSpec.litHeader l = some (n, false)) →
+        s1.inp = R.2 ∧ R.1.roles = f0.roles ++ List.replicate (l.length + 2) FramingSpec.Role.text ∧
+          s1.pos = s0.pos + (l.length + 2)) := by
+  intro R
+  have hl : noEol l := fun b hb => by have := hp b hb; constructor <;> omega
+  obtain ⟨s1, hrc, hinp, hpos, hroles, htag, htne, new, hnew, hfilt, hnc⟩ :=
+    unknown_command_line cfg s0 l rest hi hl tag name s2 hh hu hfix
+  have hspec := FramingSpec.frameLines_line go fuel true s0.pos l rest f0 hl hgo
+  rw [← hi] at hspec
+  obtain ⟨ht, hpre, hex⟩ := hspec
+  have htagspec : FramingSpec.tagOf l = some tag := by
+    unfold FramingSpec.tagOf
+    have : List.takeWhile FramingSpec.isAtomChar l = tag := by
+      rw [htag]
+      exact (takeWhile_congr isAtomChar FramingSpec.isAtomChar l
+        (fun b hb => atomChar_agree b (by have := hp b hb; omega) (hp b hb).1)).symm
+    rw [this]
+    cases tag with
+    | nil => exact absurd rfl htne
+    | cons a t => rfl
+  refine ⟨s1, new, hrc, hnew, hfilt, hnc, by rw [ht rfl, htagspec], hroles, hpre, fun hc => ?_⟩
+  obtain ⟨h1, h2, _⟩ := hex hc
+  exact ⟨by rw [hinp, h1], h2, by rw [hpos]; omega⟩
+
 end GoImap.Framing
